@@ -84,7 +84,10 @@ struct List
     static constexpr bool ALL_TRIVIAL = (std::is_trivially_copyable_v<typename Ds::type> && ...);
     static constexpr bool HAS_ALIGN = ((Ds::align_as != 0) || ...);
     // value types whose object representation contains absolute addresses (std::string points into itself)
-    static constexpr bool HAS_ADDRESS_BYTES = (std::is_same_v<typename Ds::type, std::string> || ...);
+    static constexpr bool HAS_ADDRESS_BYTES = ((std::is_same_v<typename Ds::type, std::string> || std::is_same_v<typename Ds::type, Ptr>) || ...);
+    // per parameter: model value -> the value the type can actually hold (bool, empty class, pointer table index)
+    using NormFn = int (*)(int);
+    static constexpr std::array<NormFn, N> norms{&VT<typename Ds::type>::norm...};
 
     static constexpr bool is_count(std::size_t i) { return i + 1 < N && kinds[i + 1] == V; }
     static constexpr std::size_t fixed_index(std::size_t i)
@@ -136,12 +139,12 @@ struct List
                 if (is_count(i))
                     e.f[i].push_back(static_cast<int>(counts[vary_index(i + 1)]));
                 else
-                    e.f[i].push_back(value_for(id, i, 0));
+                    e.f[i].push_back(norms[i](value_for(id, i, 0)));
             }
             else
             {
                 const std::size_t n = kinds[i] == F ? fixed[fixed_index(i)] : counts[vary_index(i)];
-                for (std::size_t p = 0; p < n; ++p) e.f[i].push_back(value_for(id, i, p));
+                for (std::size_t p = 0; p < n; ++p) e.f[i].push_back(norms[i](value_for(id, i, p)));
             }
         }
         return e;
@@ -263,7 +266,7 @@ struct List
         {
             if (!is_count(I))
             {
-                m.f[I][0] = 1 + (m.f[I][0] + delta) % 120;
+                m.f[I][0] = VT<T>::norm(1 + (m.f[I][0] + delta) % 120);
                 cntgs::get<I>(r) = VT<T>::make(m.f[I][0]);
             }
         }
@@ -273,7 +276,7 @@ struct List
             std::size_t k = 0;
             for (auto& x : s)
             {
-                m.f[I][k] = 1 + (m.f[I][k] + delta) % 120;
+                m.f[I][k] = VT<T>::norm(1 + (m.f[I][k] + delta) % 120);
                 x = VT<T>::make(m.f[I][k]);
                 ++k;
             }
